@@ -100,6 +100,10 @@ def errClass : Err → String
   | .rateLimitNotFound _ => "rate-limit-not-found"
   | .hookNotFound _ => "hook-not-found"
   | .groupCycle _ => "group-cycle"
+  | .groupTooDeep _ => "group-too-deep"
+  | .tooManyMembers _ => "too-many-members"
+  | .groupTooBig _ => "group-too-big"
+  | .includeTooDeep _ => "include-too-deep"
   | .duplicateCertId _ => "duplicate-certificate-id"
   | .accountNotFound _ => "account-not-found"
 
